@@ -90,8 +90,9 @@ def main():
                 if m["file"].endswith((".c", ".h")) and not m.get("nocompile"):
                     unit = m.get("compile_unit", m["file"] if m["file"].endswith(".c") else None)
                     if unit:
-                        cp = subprocess.run(["clang", "-std=c99", "-fsyntax-only", "-w", "-I.", os.path.basename(unit)],
-                                            cwd=os.path.dirname(os.path.join(scratch, unit)), capture_output=True, text=True)
+                        srcdir = os.path.join(scratch, "aldor/aldor/src")
+                        cp = subprocess.run(["clang", "-std=c99", "-fsyntax-only", "-w", "-I" + srcdir,
+                                             os.path.join(scratch, unit)], cwd=srcdir, capture_output=True, text=True)
                         if cp.returncode != 0:
                             print("SELFTEST-FAIL %s: mutant does not compile: %s" % (m["id"], cp.stderr[:300]))
                             failures += 1
